@@ -10,106 +10,248 @@ _HDR = ('From Coq Require Import List ZArith NArith Floats.PrimFloat. Import Lis
         'From ByC Require Import Base.Result Harness.Compare Model.Plots.\nOpen Scope float_scope.')
 COQ_STREAMS = {
     'markers': (_HDR, 'bad_markers', ('Z * nat * Z * list Z', 'list Z'), 300),
-    'mask': (_HDR, 'bad_burst_mask', ('nat * Z * list ((Z * Z) * bool)', 'barr'), 100),
+    'summary': (_HDR, 'bad_summary', ('summ_in', 'summ_out'), 40),
     'offset': (_HDR, 'bad_offset', ('float * list float', 'list Z'), 50),
 }
 RULE = ('cycle tables of both centrings from generated signals; x-limits None or on the sample grid (values taken from the '
-        'plotted time axis: random windows, windows starting where fs*t truncates below the sample index, windows with no '
-        'complete cycle, windows ending exactly on a cycle boundary); plot_cyclepoints_array / plot_cyclepoints_df with the four '
-        'kind switches; plot_burst_detect_summary / Bycycle.plot with plot_only_result and interp settings; Line2D data and '
-        'masked arrays are read back from the Axes and mapped to sample indices. non-trivial = a window with x-limits that '
-        'contains at least one marker / one labelled cycle')
-ASSUMPTIONS = ['matplotlib rendering itself is trusted; only the data handed to the artists is checked (partial)']
-TRUST = ['sample index of a drawn x value = round(x * fs)']
+        'plotted time axis): stratified so that every plot function x centring x {no limits, random window, window starting '
+        'where fs*t does not reproduce the sample index} occurs at least twice and, for plot_burst_detect_summary / Bycycle.plot, '
+        'every (plot_only_result, interp) pair with each centring; further windows with no complete cycle, ending exactly on a '
+        'cycle boundary, starting at t = 0, ending on the last sample; plot_cyclepoints_array / '
+        'plot_cyclepoints_df with the four kind switches. Line2D data and masked arrays are read back from the Axes: marker x '
+        'against sample / fs and against the plotted trace, marker y against the plotted value, highlighted samples, parameter '
+        'panel points (interp and step branch) and threshold lines. The window offset on its own: every start sample k < 400 '
+        '(5000 thorough, every 7th) of 9 sampling rates through plot_cyclepoints_array, a seeded sample of them (half '
+        'of it among the k with fs * (k / fs) != k) through plot_burst_detect_summary and plot_burst_detect_param (both '
+        'branches) with a synthetic 3-row table. non-trivial = a '
+        'window with x-limits that contains at least one marker / one labelled cycle, or an offset sweep')
+ASSUMPTIONS = ['matplotlib rendering itself is trusted; only the data handed to the artists is checked (partial)',
+               'PENDING-DEFECT 1 (.work/wp/WP8_defect_1.md): windows that start exactly on the first sample of a cycle while '
+               'fs * (k / fs) > k are not generated (limit_df drops that cycle although it lies entirely inside the view)']
+TRUST = ['sample index of a drawn x value = round(x * fs), accepted only when |x - index / fs| < 1e-9 / fs']
+
+THR = {'amp_fraction_threshold': 0.1, 'amp_consistency_threshold': 0.4, 'period_consistency_threshold': 0.4,
+       'monotonicity_threshold': 0.6, 'min_n_cycles': 2}
+PKEYS = [k for k in THR if k != 'min_n_cycles']
+WHATS = ['array', 'df', 'summary', 'object']
+CENTRES = ['peak', 'trough']
+BASE_MODES = ['none', 'grid', 'trunc']
+EXTRA_MODES = ['tiny', 'cycle_end', 'from_zero', 'to_end']
+OFFSET_FS = [50.0, 64.0, 100.0, 128.0, 200.0, 250.0, 500.0, 1000.0, 30.0]
+
+
+def _plot_case(rng, what, centre, mode, pair=None):
+    s = gen.signal(rng, kind=rng.choice(['sparse', 'bursty', 'sum', 'sine', 'asym']), max_len=420)
+    ln = len(s['sig'])
+    if pair is None:
+        pair = (rng.random() < 0.4, rng.random() < 0.6)
+    return {'kind': 'plot/' + mode, 'sig': gen.hexlist(s['sig']), 'fs': s['fs'], 'f_range': list(s['f_range']),
+            'center': centre, 'mode': mode, 'a': rng.randint(1, ln // 2), 'w': rng.randint(3, ln // 2), 'what': what,
+            'switch': [rng.random() < 0.8 for _ in range(4)], 'plot_sig': rng.random() < 0.5,
+            'only_result': bool(pair[0]), 'interp': bool(pair[1])}
 
 
 def cases(rng, tier):
     out = []
-    n = 60 if tier == 'quick' else 600
-    for _ in range(n):
-        s = gen.signal(rng, kind=rng.choice(['sparse', 'bursty', 'sum', 'sine', 'asym']), max_len=420)
-        ln = len(s['sig'])
-        fs = s['fs']
-        mode = rng.choice(['none', 'grid', 'grid', 'trunc', 'tiny', 'cycle_end'])
-        out.append({'kind': 'plot/' + mode, 'sig': gen.hexlist(s['sig']), 'fs': fs, 'f_range': list(s['f_range']),
-                    'center': rng.choice(['peak', 'trough']), 'mode': mode, 'a': rng.randint(1, ln // 2), 'w': rng.randint(3, ln // 2),
-                    'what': rng.choice(['array', 'df', 'summary', 'summary', 'object']),
-                    'switch': [rng.random() < 0.8 for _ in range(4)], 'plot_sig': rng.random() < 0.5,
-                    'only_result': rng.random() < 0.4, 'interp': rng.random() < 0.6})
-    # the window offset on its own: every start sample of several sampling rates
-    for fs in [50.0, 64.0, 100.0, 128.0, 200.0, 250.0, 500.0, 1000.0, 30.0]:
-        ks = range(0, 400) if tier == 'quick' else range(0, 5000)
-        out.append({'kind': 'offset', 'fs': fs, 'ks': list(ks)})
+    reps = 2 if tier == 'quick' else 12
+    pairs = [(False, True), (False, False), (True, True), (True, False)]
+    for what in WHATS:
+        for centre in CENTRES:
+            # every (plot_only_result, interp) pair at least once per (function, centring); the rest drawn at random
+            todo = list(pairs)
+            rng.shuffle(todo)
+            for rep in range(reps):
+                for mode in BASE_MODES:
+                    out.append(_plot_case(rng, what, centre, mode, todo.pop() if todo else None))
+    for rep in range(1 if tier == 'quick' else 10):
+        for mode in EXTRA_MODES:
+            for what in WHATS:
+                out.append(_plot_case(rng, what, rng.choice(CENTRES), mode))
+    if tier != 'quick':
+        for _ in range(120):
+            out.append(_plot_case(rng, rng.choice(WHATS), rng.choice(CENTRES), rng.choice(BASE_MODES + EXTRA_MODES)))
+    # the window offset on its own: start samples of several sampling rates, through three plot functions
+    nk = 400 if tier == 'quick' else 5000
+    for fs in OFFSET_FS:
+        for lo in range(0, nk, 200 if tier == 'quick' else 2500):
+            out.append({'kind': 'offset', 'via': 'array', 'fs': fs, 'ks': list(range(lo, min(nk, lo + (200 if tier == 'quick' else 2500))))})
+        # start samples whose time stamp times fs does not reproduce the sample index (either direction) + random ones
+        below = [k for k in range(1, nk) if (k / fs) * fs < k]
+        above = [k for k in range(1, nk) if (k / fs) * fs > k]
+        for via, m in (('summary', 6 if tier == 'quick' else 30), ('param', 15 if tier == 'quick' else 100)):
+            ks = set([0])
+            for pool in (below, above):
+                ks.update(rng.sample(pool, min(m, len(pool))))
+            ks.update(rng.sample(range(1, nk), 2 * m))
+            out.append({'kind': 'offset', 'via': via, 'fs': fs, 'ks': sorted(ks)})
     return out
 
 
-def _xlim(c, times, df, side_cols):
-    n = len(times)
+def _xlim(c, n, fs, rows):
+    """(xlim, first sample of the view, number of samples in the view).  Time stamps are those of the plotted time
+    axis, np.arange(n) / fs, whose entries are the correctly rounded quotients k / fs."""
     mode = c['mode']
     if mode == 'none':
         return None, 0, n
     a = min(c['a'], n - 3)
     if mode == 'trunc':
-        bad = [k for k in range(1, n - 3) if int(times[k] * c['fs']) != k]
+        bad = [k for k in range(1, n - 3) if (k / fs) * fs != k]
         if bad:
             a = bad[c['a'] % len(bad)]
+    if mode == 'from_zero':
+        a = 0
     b = min(n - 1, a + c['w'])
     if mode == 'tiny':
         b = min(n - 1, a + 3)
-    if mode == 'cycle_end' and len(df) > 1:
-        ends = [int(v) for v in df[side_cols[1]].values if a + 2 < int(v) < n - 1]
+    if mode == 'to_end':
+        b = n - 1
+    if mode == 'cycle_end' and len(rows) > 1:
+        ends = [r[1] for r in rows if a + 2 < r[1] < n - 1]
         if ends:
             b = ends[c['w'] % len(ends)]
-    return (float(times[a]), float(times[b])), a, b - a      # samples with times[a] <= t < times[b]
+    # PENDING-DEFECT 1: a window starting exactly on the first sample of a cycle with fs * (a / fs) > a makes limit_df
+    # drop that cycle although it lies entirely inside the view; excluded until the implementation is repaired
+    lasts = set(r[0] for r in rows)
+    while a in lasts and (a / fs) * fs > a and a + 3 < b:
+        a += 1
+    return (a / fs, b / fs), a, b - a      # samples with a / fs <= t < b / fs
 
 
 def _idx(x, fs):
     return int(round(float(x) * fs))
 
 
+def _x_ok(x, fs, trace=None):
+    """x is the time stamp of its sample (to a billionth of a sample period) and, when a trace is plotted, the x of
+    the trace at that sample."""
+    i = _idx(x, fs)
+    tol = 1e-9 / fs
+    ok = abs(float(x) - i / fs) <= tol
+    if ok and trace is not None:
+        tx, first = trace[0], trace[1]
+        j = i - first
+        ok = 0 <= j < len(tx) and abs(float(tx[j]) - float(x)) <= tol
+    return bool(ok)
+
+
+def _same(a, b, tol):
+    a, b = float(a), float(b)
+    return (math.isnan(a) and math.isnan(b)) or abs(a - b) <= tol
+
+
+def _synth_table(k):
+    """Three cycles [k+1,k+3] [k+3,k+6] [k+6,k+9], the middle one labelled; peak-centred."""
+    import pandas as pd
+    return pd.DataFrame({'sample_peak': [k + 2, k + 5, k + 7], 'sample_last_trough': [k + 1, k + 3, k + 6],
+                         'sample_next_trough': [k + 3, k + 6, k + 9], 'sample_zerox_rise': [k + 1, k + 4, k + 6],
+                         'sample_zerox_decay': [k + 2, k + 5, k + 8], 'sample_last_zerox_decay': [k, k + 2, k + 5],
+                         'is_burst': [False, True, False], 'amp_fraction': [0.2, 0.5, 0.9],
+                         'amp_consistency': [np.nan, 0.5, np.nan], 'period_consistency': [np.nan, 0.625, np.nan],
+                         'monotonicity': [0.75, 0.875, 0.5]})
+
+
+_SYNTH_ROWS = [(1, 3, 2, 0.75), (3, 6, 5, 0.875), (6, 9, 7, 0.5)]      # (last, next, centre, monotonicity) relative to k
+_SYNTH_VIEW = 11
+
+
+def _clear(ax):
+    for art in list(ax.lines) + list(ax.patches) + list(ax.collections):
+        art.remove()
+
+
+def _run_offset(c):
+    import matplotlib.pyplot as plt
+    fs = c['fs']
+    n = max(c['ks']) + _SYNTH_VIEW + 3
+    sig = np.arange(n, dtype=float)
+    ks = c['ks']
+    if len(ks) > 800:
+        ks = ks[::7]
+    got = []
+    via = c['via']
+    try:
+        if via == 'array':
+            from bycycle.plts import plot_cyclepoints_array as fn
+        elif via == 'summary':
+            from bycycle.plts import plot_burst_detect_summary as fn
+        else:
+            from bycycle.plts import plot_burst_detect_param as fn
+    except ImportError as e:
+        return {'skip': 'plot function not importable: %s' % e}
+    fig, ax = plt.subplots()
+    try:
+        for i, k in enumerate(ks):
+            t0 = k / fs
+            try:
+                if via == 'array':
+                    # offsets used for a window starting at sample k: sig[i] = i, so the drawn y is the sample read
+                    fn(sig, fs, peaks=np.array([k + 1, k + 2]), xlim=(t0, (k + 4) / fs), ax=ax, plot_sig=False)
+                    ln = ax.lines[0]
+                    got.append([k, float(t0).hex(), [float(v) for v in ln.get_ydata()], [float(v).hex() for v in ln.get_xdata()]])
+                    _clear(ax)
+                elif via == 'summary':
+                    fn(_synth_table(k), sig, fs, dict(THR), xlim=(t0, (k + _SYNTH_VIEW) / fs), plot_only_result=True)
+                    f2 = plt.gcf()
+                    l0 = f2.axes[0].lines
+                    bx = l0[1].get_xdata()
+                    m = np.ma.getmaskarray(l0[1].get_ydata())
+                    hl = [_idx(x, fs) for x, mm in zip(bx, m) if not mm]
+                    mk = [[float(v) for v in l0[j].get_ydata()] for j in (2, 3)]
+                    zs = [float(v) for v in l0[0].get_ydata()]
+                    got.append([k, float(t0).hex(), hl, mk, [_idx(bx[0], fs), len(bx)], zs])
+                    plt.close(f2)
+                else:
+                    interp = bool((i + k) % 2)
+                    fn(_synth_table(k), sig, fs, 'monotonicity', 0.6, xlim=(t0, (k + _SYNTH_VIEW) / fs), interp=interp, ax=ax)
+                    ln = ax.lines[0]
+                    got.append([k, float(t0).hex(), interp, [[float(x).hex(), float(y)] for x, y in zip(ln.get_xdata(), ln.get_ydata())],
+                                str(ln.get_drawstyle())])
+                    _clear(ax)
+            except Exception as e:
+                got.append([k, float(t0).hex(), 'err:' + exc_kind(e) + ':' + str(e)[:80]])
+                _clear(ax)
+    finally:
+        plt.close('all')
+    return {'offsets': got}
+
+
+def _markers(ln, fs, ref, tol, trace):
+    """[sample, y is the plotted value at that sample, x is the time stamp of that sample] per drawn marker."""
+    res = []
+    for x, y in zip(ln.get_xdata(), ln.get_ydata()):
+        i = _idx(x, fs)
+        y_ok = 0 <= i < len(ref) and abs(float(y) - float(ref[i])) <= tol
+        if y_ok and trace is not None:
+            j = i - trace[1]
+            y_ok = 0 <= j < len(trace[2]) and abs(float(trace[2][j]) - float(y)) <= tol
+        res.append([i, bool(y_ok), _x_ok(x, fs, trace)])
+    return res
+
+
 def run_impl(c):
     import matplotlib
     import matplotlib.pyplot as plt
     if c['kind'] == 'offset':
-        # offsets used by the plots for a window starting at sample k: read through plot_cyclepoints_array
-        from bycycle.plts import plot_cyclepoints_array
-        fs = c['fs']
-        n = max(c['ks']) + 6
-        times = np.arange(n) / fs
-        sig = np.arange(len(times), dtype=float)
-        got = []
-        ks = [k for k in c['ks'] if k + 4 < len(times)]
-        for k in ks[::7] if len(ks) > 800 else ks:
-            fig, ax = plt.subplots()
-            try:
-                plot_cyclepoints_array(sig, fs, peaks=np.array([k + 1, k + 2]), xlim=(float(times[k]), float(times[k + 4])), ax=ax, plot_sig=False)
-                ys = [float(v) for v in ax.lines[0].get_ydata()]
-                got.append([k, float(times[k]).hex(), ys])
-            except Exception as e:
-                got.append([k, float(times[k]).hex(), 'err:' + exc_kind(e)])
-            plt.close(fig)
-        return {'offsets': got}
+        return _run_offset(c)
     from bycycle.features import compute_features
     from bycycle.plts import plot_cyclepoints_array, plot_cyclepoints_df, plot_burst_detect_summary
     sig = gen.unhexlist(c['sig'])
     fs = c['fs']
-    thr = {'amp_fraction_threshold': 0.1, 'amp_consistency_threshold': 0.4, 'period_consistency_threshold': 0.4,
-           'monotonicity_threshold': 0.6, 'min_n_cycles': 2}
+    thr = dict(THR)
     try:
         df = compute_features(sig, fs, tuple(c['f_range']), center_extrema=c['center'], threshold_kwargs=dict(thr))
     except Exception as e:
         return {'skip': 'compute_features raised %s' % exc_kind(e)}
     sc = pipeline.sample_cols(c['center'])
-    times = np.arange(len(sig)) / fs
-    xlim, s0, nview = _xlim(c, times, df, (sc[1], sc[2]))
+    rows = [[int(df[sc[1]].iloc[i]), int(df[sc[2]].iloc[i]), bool(df['is_burst'].iloc[i]), int(df[sc[0]].iloc[i])] for i in range(len(df))]
+    xlim, s0, nview = _xlim(c, len(sig), fs, rows)
     out = {'s0': s0, 'n': nview, 'xlim': None if xlim is None else [float(xlim[0]).hex(), float(xlim[1]).hex()]}
-    centres = [int(v) for v in df[sc[0]].values]
-    sides = sorted(set(int(v) for v in np.append(df[sc[1]].values, df[sc[2]].values)))
+    centres = [r[3] for r in rows]
+    sides = sorted(set([r[0] for r in rows] + [r[1] for r in rows]))
     rises = [int(v) for v in df['sample_zerox_rise'].values]
     decays = [int(v) for v in df['sample_zerox_decay'].values]
     out['series_in'] = {'centres': centres, 'sides': sides, 'rises': rises, 'decays': decays}
-    out['rows'] = [[int(df[sc[1]].iloc[i]), int(df[sc[2]].iloc[i]), bool(df['is_burst'].iloc[i]), int(df[sc[0]].iloc[i])] for i in range(len(df))]
-    fig = None
+    out['rows'] = rows
     try:
         if c['what'] in ('array', 'df'):
             fig, ax = plt.subplots()
@@ -125,18 +267,18 @@ def run_impl(c):
                     kw['peaks'] = np.array(centres, dtype=int)
                     names = ['peaks']
                 plot_cyclepoints_array(sig, fs, plot_sig=c['plot_sig'], xlim=xlim, ax=ax, **kw)
-                plotted = sig
             else:
                 ext, zx = sw[0] or not sw[2], sw[2]
                 plot_cyclepoints_df(df, sig, fs, plot_sig=c['plot_sig'], plot_extrema=ext, plot_zerox=zx, xlim=xlim, ax=ax)
                 names = (['peaks', 'troughs'] if ext else []) + (['rises', 'decays'] if zx else [])
-                plotted = sig
+            trace = None
+            if c['plot_sig']:
+                tx = ax.lines[0].get_xdata()
+                trace = (tx, _idx(tx[0], fs), ax.lines[0].get_ydata()) if len(tx) else None
             lines = ax.lines[1:] if c['plot_sig'] else ax.lines
             out['series'] = {}
             for nm, ln in zip(names, lines):
-                xs, ys = ln.get_xdata(), ln.get_ydata()
-                out['series'][nm] = [[_idx(x, fs), bool(float(y) == float(plotted[_idx(x, fs)]) if 0 <= _idx(x, fs) < len(plotted) else False)]
-                                     for x, y in zip(xs, ys)]
+                out['series'][nm] = _markers(ln, fs, sig, 0.0, trace)
             out['n_series_lines'] = len(lines)
             out['names'] = names
         else:
@@ -153,28 +295,30 @@ def run_impl(c):
             from scipy.stats import zscore
             z = zscore(sig)
             tx = l0[0].get_xdata()
+            trace = (tx, _idx(tx[0], fs), l0[0].get_ydata())
             out['view_first'] = _idx(tx[0], fs)
             out['view_len'] = len(tx)
             burst = l0[1].get_ydata()
+            bx = l0[1].get_xdata()
             m = np.ma.getmaskarray(burst)
             out['mask'] = coqio.mask_of([not bool(v) for v in m])
             out['mask_len'] = len(m)
+            out['mask_first'] = _idx(bx[0], fs) if len(bx) else None
+            out['mask_x_ok'] = bool(all(_x_ok(x, fs) for x in bx))
             out['markers'] = {}
             for nm, ln in zip(['peaks', 'troughs'], l0[2:4]):
-                xs, ys = ln.get_xdata(), ln.get_ydata()
-                out['markers'][nm] = [[_idx(x, fs), bool(abs(float(y) - float(z[_idx(x, fs)])) < 1e-12) if 0 <= _idx(x, fs) < len(z) else False]
-                                      for x, y in zip(xs, ys)]
+                out['markers'][nm] = _markers(ln, fs, z, 1e-12, trace)
             if not c['only_result']:
                 panels = []
-                keys = [k for k in thr if k != 'min_n_cycles']
-                for k, axp in zip(keys, axes[1:]):
+                for k, axp in zip(PKEYS, axes[1:]):
                     ls = axp.lines
-                    pts = [[_idx(x, fs), float(y)] for x, y in zip(ls[0].get_xdata(), ls[0].get_ydata())]
+                    pts = [[_idx(x, fs), None if math.isnan(float(y)) else float(y), _x_ok(x, fs)]      # NaN travels as None (strict JSON)
+                           for x, y in zip(ls[0].get_xdata(), ls[0].get_ydata())]
                     tl = [float(v) for v in ls[1].get_ydata()]
-                    panels.append({'key': k, 'points': pts, 'thr_line': tl})
+                    panels.append({'key': k, 'points': pts, 'thr_line': tl, 'drawstyle': str(ls[0].get_drawstyle())})
                 out['panels'] = panels
                 out['panel_values'] = {k: [float(v) if not math.isnan(float(v)) else None for v in df[k.replace('_threshold', '')].values]
-                                       for k in keys}
+                                       for k in PKEYS}
     except Exception as e:
         out['err'] = exc_kind(e)
         out['msg'] = str(e)[:160]
@@ -183,132 +327,251 @@ def run_impl(c):
     return out
 
 
-def _expect_markers(pts, s0, n):
-    """Cyclepoints STRICTLY inside the view (its first and last sample are not constrained by the property)."""
-    return [p for p in pts if s0 < p < s0 + n - 1]
-
-
-def _strict(got, s0, n):
-    return [g for g in got if s0 < g[0] < s0 + n - 1]
+def _kept_idx(c, o):
+    """Indices of the rows limit_df keeps for this window (binary64 comparison of the side extrema with start*fs /
+    stop*fs, as C18)."""
+    if o['xlim'] is None:
+        return list(range(len(o['rows'])))
+    a, b = float.fromhex(o['xlim'][0]), float.fromhex(o['xlim'][1])
+    return [i for i, r in enumerate(o['rows']) if r[0] >= a * c['fs'] and r[1] <= b * c['fs']]
 
 
 def _kept_rows(c, o):
-    """Rows limit_df keeps for this window (binary64 comparison of the side extrema with start*fs / stop*fs, as C18)."""
-    if o['xlim'] is None:
-        return list(o['rows'])
-    a, b = float.fromhex(o['xlim'][0]), float.fromhex(o['xlim'][1])
-    return [r for r in o['rows'] if r[0] >= a * c['fs'] and r[1] <= b * c['fs']]
+    return [o['rows'][i] for i in _kept_idx(c, o)]
+
+
+def _val(v):
+    return float('nan') if v is None else float(v)
+
+
+def _steps_show(points, centre, v):
+    """The drawn polyline passes horizontally through (centre, v): two consecutive points with the value v whose
+    samples enclose the centre."""
+    for (x1, y1, _), (x2, y2, _) in zip(points, points[1:]):
+        if x1 <= centre <= x2 and _same(_val(y1), v, 1e-12) and _same(_val(y2), v, 1e-12):
+            return True
+    return False
+
+
+def _oracle_offset(c, o):
+    fs = c['fs']
+    for g in o['offsets']:
+        k = g[0]
+        if isinstance(g[2], str):
+            return 'window starting at sample %d (fs=%s) through %s: %s' % (k, fs, c['via'], g[2])
+        if c['via'] == 'array':
+            ys, xs = g[2], [float.fromhex(h) for h in g[3]]
+            if ys != [float(k + 1), float(k + 2)]:
+                return 'window starting at sample %d (fs=%s): markers for samples %d,%d drawn with signal values %s' % (
+                    k, fs, k + 1, k + 2, ys)
+            if not all(_x_ok(x, fs) and _idx(x, fs) == p for x, p in zip(xs, (k + 1, k + 2))):
+                return 'window starting at sample %d (fs=%s): markers for samples %d,%d drawn at t=%s' % (k, fs, k + 1, k + 2, xs)
+        elif c['via'] == 'summary':
+            hl, mk, view, zs = g[2], g[3], g[4], g[5]
+            want = list(range(k + 3, k + 7))
+            if sorted(hl) != want:
+                return ('summary, window starting at sample %d (fs=%s): highlighted samples %s, the only labelled cycle is '
+                        '[%d, %d]' % (k, fs, hl, k + 3, k + 6))
+            # markers: the plotted trace is increasing, so a drawn value identifies the sample it was read from
+            for nm, ys, pts in (('centre', mk[0], [k + 2, k + 5, k + 7]), ('side', mk[1], [k + 1, k + 3, k + 6, k + 9])):
+                vals = {}
+                for p in pts:
+                    j = p - view[0]
+                    if 0 <= j < len(zs):
+                        vals[p] = zs[j]
+                for y in ys:
+                    if not any(abs(y - v) < 1e-12 for v in vals.values()):
+                        return 'summary, window starting at sample %d (fs=%s): %s marker drawn with a value that is not the trace at a %s extremum' % (k, fs, nm, nm)
+                for p in pts:
+                    if k < p < k + _SYNTH_VIEW - 1 and p in vals and not any(abs(y - vals[p]) < 1e-12 for y in ys):
+                        return 'summary, window starting at sample %d (fs=%s): %s extremum at sample %d inside the view is not drawn' % (k, fs, nm, p)
+        else:
+            interp, pts, style = g[2], [[_idx(float.fromhex(h), fs), y, _x_ok(float.fromhex(h), fs)] for h, y in g[3]], g[4]
+            if not all(p[2] for p in pts):
+                return 'panel, window starting at sample %d (fs=%s): a point is not drawn at a sample time' % (k, fs)
+            for la, nx, ce, v in _SYNTH_ROWS:
+                if interp:
+                    if not any(p[0] == k + ce and _same(p[1], v, 1e-12) for p in pts):
+                        return 'panel, window starting at sample %d (fs=%s): no point (%d, %s) for the cycle centred on sample %d; drawn %s' % (
+                            k, fs, k + ce, v, k + ce, [p[:2] for p in pts])
+                elif style == 'default' and not _steps_show(pts, k + ce, v):
+                    return 'panel (steps), window starting at sample %d (fs=%s): value %s is not drawn across the centre %d; drawn %s' % (
+                        k, fs, v, k + ce, [p[:2] for p in pts])
+            for p in pts:
+                if not any(k + la <= p[0] <= k + nx and _same(p[1], v, 1e-12) for la, nx, ce, v in _SYNTH_ROWS):
+                    return 'panel, window starting at sample %d (fs=%s): point %s shows no cycle of the table' % (k, fs, p[:2])
+    return None
 
 
 def oracle(c, o):
     if 'skip' in o:
         return None
     if c['kind'] == 'offset':
-        for k, th, ys in o['offsets']:
-            if isinstance(ys, str):
-                return 'window starting at sample %d (fs=%s): %s' % (k, c['fs'], ys)
-            if ys != [float(k + 1), float(k + 2)]:
-                return 'window starting at sample %d (fs=%s): markers for samples %d,%d drawn with signal values %s' % (
-                    k, c['fs'], k + 1, k + 2, ys)
-        return None
+        return _oracle_offset(c, o)
     if 'err' in o:
         return '%s raised %s (%s) for xlim=%s' % (c['what'], o['err'], o.get('msg'), o['xlim'])
     s0, n = o['s0'], o['n']
     si = o['series_in']
     src = {'peaks': si['centres'], 'troughs': si['sides'], 'rises': si['rises'], 'decays': si['decays']}
+
+    def strictly_inside(p):
+        return s0 < p < s0 + n - 1
+
+    def judge_markers(label, nm, got, must):
+        # drawn markers: genuine cyclepoints of their kind, at (sample / fs, plotted value at that sample)
+        genuine = set(src[nm])
+        for g in got:
+            if g[0] not in genuine:
+                return '%s %s marker at sample %d, which is not one of the %s of the table' % (label, nm, g[0], nm)
+            if not g[2]:
+                return '%s %s marker of sample %d is not drawn at t = sample / fs' % (label, nm, g[0])
+            if not g[1]:
+                return '%s %s marker of sample %d is not at the plotted signal value of its sample' % (label, nm, g[0])
+        drawn = set(g[0] for g in got)
+        miss = [p for p in must if p not in drawn]
+        if miss:
+            return '%s %s at samples %s lie strictly inside the view [%d,+%d) but are not drawn (drawn: %s)' % (
+                label, nm, miss[:6], s0, n, sorted(drawn)[:8])
+        return None
+
     if c['what'] in ('array', 'df'):
         for nm in o['names']:
             got = o['series'].get(nm)
             if got is None:
                 return 'series %s not drawn' % nm
-            want = _expect_markers(src[nm], s0, n)
-            if any(not (s0 <= g[0] <= s0 + n - 1) for g in got):
-                return '%s marker outside the view' % nm
-            if [g[0] for g in _strict(got, s0, n)] != want:
-                return '%s markers at samples %s, expected %s (view starts at sample %d, %d samples)' % (nm, [g[0] for g in got][:8], want[:8], s0, n)
-            if not all(g[1] for g in got):
-                return '%s markers not at the plotted signal value of their sample' % nm
+            # every cyclepoint strictly inside the view is drawn (first / last sample of the view are not constrained)
+            msg = judge_markers(c['what'], nm, got, [p for p in src[nm] if strictly_inside(p)])
+            if msg:
+                return msg
         return None
-    # summary
-    if o['view_first'] != s0 or o['view_len'] != n:
-        return 'view is samples [%d, +%d), expected [%d, +%d)' % (o['view_first'], o['view_len'], s0, n)
+    # burst summary.  Its extrema markers are those of the window-limited table: every drawn marker must be genuine; the
+    # extrema of cycles lying entirely inside the view must be drawn (other in-view extrema may or may not be)
+    inside = [r for r in o['rows'] if s0 <= r[0] and r[1] <= s0 + n - 1]
     for nm in ('peaks', 'troughs'):
-        got = o['markers'][nm]
-        want = _expect_markers(src[nm], s0, n)
-        # the summary limits the table first: only extrema of the cycles kept by limit_df are drawn
-        inside = _kept_rows(c, o)
-        allowed = set([r[3] for r in inside]) if nm == 'peaks' else set([r[0] for r in inside] + [r[1] for r in inside])
-        want = [p for p in want if p in allowed]
-        if [g[0] for g in _strict(got, s0, n)] != want:
-            return 'summary %s markers at samples %s, expected %s (view [%d,+%d))' % (nm, [g[0] for g in got][:8], want[:8], s0, n)
-        if not all(g[1] for g in got):
-            return 'summary %s markers not at the plotted (z-scored) signal value of their sample' % nm
-    mask = [(o['mask'] >> i) & 1 for i in range(o['mask_len'])]
+        must = [r[3] for r in inside] if nm == 'peaks' else sorted(set([r[0] for r in inside] + [r[1] for r in inside]))
+        msg = judge_markers('summary', nm, o['markers'][nm], [p for p in must if strictly_inside(p)])
+        if msg:
+            return msg
+    if not o['mask_x_ok']:
+        return 'the highlighted trace is not drawn at sample times'
     allowed, required = set(), set()
     for la, nx, lab, ce in o['rows']:
         if lab:
             allowed.update(range(la, nx + 1))
             if s0 <= la and nx <= s0 + n - 1:
                 required.update(range(la, nx + 1))
-    for i, b in enumerate(mask):
-        smp = s0 + i
-        if b and smp not in allowed:
+    first = o['mask_first'] if o['mask_first'] is not None else s0
+    high = set(first + i for i in range(o['mask_len']) if (o['mask'] >> i) & 1)
+    for smp in sorted(high):
+        if smp not in allowed:
             return 'highlighted sample %d does not belong to a cycle labelled is_burst' % smp
-        if not b and smp in required:
+    for smp in sorted(required):
+        if smp not in high:
             return 'sample %d of a bursting cycle lying entirely inside the view is not highlighted' % smp
     if 'panels' in o:
         for p in o['panels']:
             col = o['panel_values'][p['key']]
-            thr = {'amp_fraction_threshold': 0.1, 'amp_consistency_threshold': 0.4, 'period_consistency_threshold': 0.4,
-                   'monotonicity_threshold': 0.6}[p['key']]
-            if not all(abs(v - thr) < 1e-12 for v in p['thr_line']):
+            thr = THR[p['key']]
+            if not p['thr_line'] or not all(abs(v - thr) < 1e-12 for v in p['thr_line']):
                 return 'threshold line of %s at %s, expected %s' % (p['key'], p['thr_line'], thr)
+            pts = p['points']
+            if not all(q[2] for q in pts):
+                return 'panel %s: a point is not drawn at a sample time' % p['key']
             if c['interp']:
                 cent = {r[3]: i for i, r in enumerate(o['rows'])}
-                for x, y in p['points']:
+                for x, y, _ in pts:
                     if x not in cent:
                         return 'panel %s: point at sample %d which is not a cycle centre' % (p['key'], x)
-                    v = col[cent[x]]
-                    if not ((v is None and math.isnan(y)) or (v is not None and abs(v - y) < 1e-12)):
-                        return 'panel %s: value %r at centre %d, table has %r' % (p['key'], y, x, v)
+                    if not _same(_val(y), _val(col[cent[x]]), 1e-12):
+                        return 'panel %s: value %r at centre %d, table has %r' % (p['key'], y, x, col[cent[x]])
+                for r in inside:
+                    if not any(x == r[3] for x, _, _ in pts):
+                        return 'panel %s: no point for the cycle centred on sample %d, which lies entirely inside the view [%d,+%d)' % (
+                            p['key'], r[3], s0, n)
+            else:
+                # steps: every drawn value is the value of a cycle covering that sample, and the value of every cycle
+                # entirely inside the view is drawn across its centre
+                for x, y, _ in pts:
+                    if not any(r[0] <= x <= r[1] and _same(_val(y), _val(col[i]), 1e-12) for i, r in enumerate(o['rows'])):
+                        return 'panel %s (steps): value %r at sample %d is not the value of a cycle covering that sample' % (p['key'], y, x)
+                if p['drawstyle'] == 'default':
+                    for i, r in enumerate(o['rows']):
+                        if s0 <= r[0] and r[1] <= s0 + n - 1 and not _steps_show(pts, r[3], _val(col[i])):
+                            return 'panel %s (steps): value %r of the cycle [%d, %d] is not drawn across its centre %d' % (
+                                p['key'], col[i], r[0], r[1], r[3])
     return None
 
 
 def nontrivial(c, o):
     if c['kind'] == 'offset':
-        return True
+        return 'offsets' in o
     if 'series' in o:
         return c['mode'] != 'none' and any(len(v) > 0 for v in o['series'].values())
     return 'mask' in o and c['mode'] != 'none' and o['mask'] != 0
 
 
 def kind_of(c, o):
-    return c['kind'] + ('/' + c['what'] if 'what' in c else '') + ('/err' if 'err' in o else '')
+    if c['kind'] == 'offset':
+        return 'offset/' + c['via'] + ('/skipped' if 'skip' in o else '')
+    return c['kind'] + '/' + c['what'] + '/' + c['center'] + ('/err' if 'err' in o else '')
 
 
 def stream_of(c):
     if c['kind'] == 'offset':
         return 'offset'
-    return 'markers' if c.get('what') in ('array', 'df') else 'mask'
+    return 'markers' if c.get('what') in ('array', 'df') else 'summary'
+
+
+def _zf(i, y):
+    return '(%s%%Z, %s)' % (coqio.Z(i), coqio.fl(y))
 
 
 def coq_case(c, o):
     if 'skip' in o or 'err' in o:
         return None
     if c['kind'] == 'offset':
+        fs = c['fs']
         ok = [g for g in o['offsets'] if not isinstance(g[2], str)]
-        if not ok:
+        t0s, obs = [], []
+        for g in ok:
+            k = g[0]
+            if c['via'] == 'array':
+                # marker of sample k+1 is drawn with the value of sample k + (k+1 - off)
+                off = int(2 * k + 1 - g[2][0]) if g[2] else None
+            elif c['via'] == 'summary':
+                # the labelled cycle starts at sample k+3 and is highlighted from view index k+3 - off
+                off = (k + 3) - (min(g[2]) - g[4][0]) if g[2] else None
+            else:
+                # first drawn point belongs to sample p of the table and sits at view index p - off
+                p = k + (_SYNTH_ROWS[0][2] if g[2] else _SYNTH_ROWS[0][0])
+                off = p - (_idx(float.fromhex(g[3][0][0]), fs) - k) if g[3] else None
+            if off is None:
+                continue
+            t0s.append(float.fromhex(g[1]))
+            obs.append(off)
+        if not t0s:
             return None
-        # offset observed through the plot: marker of sample k+1 is drawn with value (k + (k+1 - off))
-        obs = [int(2 * g[0] + 1 - g[2][0]) for g in ok]
-        return '(%s, %s)' % (coqio.fl(c['fs']), coqio.flist([float.fromhex(g[1]) for g in ok])), coqio.zlist(obs)
+        return '(%s, %s)' % (coqio.fl(fs), coqio.flist(t0s)), coqio.zlist(obs)
+    s0, n = o['s0'], o['n']
     if c['what'] in ('array', 'df'):
         nm = o['names'][0]
         si = o['series_in']
         src = {'peaks': si['centres'], 'troughs': si['sides'], 'rises': si['rises'], 'decays': si['decays']}[nm]
-        got = [g[0] - o['s0'] for g in _strict(o['series'][nm], o['s0'], o['n'])]
-        src = [p for p in src if p != o['s0']]
-        return '(%d%%Z, %d%%nat, %d%%Z, %s)' % (o['s0'], o['n'], o['s0'], coqio.zlist(src)), coqio.zlist(got)
-    inside = _kept_rows(c, o)
-    rows = coqio.lst(['((%d%%Z, %d%%Z), %s)' % (r[0], r[1], coqio.B(r[2])) for r in inside]) if inside else 'nil'
-    return '(%d%%nat, %d%%Z, %s)' % (o['mask_len'], o['s0'], rows), coqio.barr(o['mask_len'], o['mask'])
+        got = [g[0] - s0 for g in o['series'][nm] if s0 < g[0] < s0 + n - 1]
+        src = [p for p in src if p != s0]
+        return '(%d%%Z, %d%%nat, %d%%Z, %s)' % (s0, n, s0, coqio.zlist(src)), coqio.zlist(got)
+    kept = _kept_idx(c, o)
+    rows = [o['rows'][i] for i in kept]
+    rws = coqio.lst(['((%s%%Z, %s%%Z, %s%%Z), %s)' % (coqio.Z(r[3]), coqio.Z(r[0]), coqio.Z(r[1]), coqio.B(r[2])) for r in rows])
+    cpts = [r[3] for r in rows if r[3] != s0]
+    spts = [p for p in sorted(set([r[0] for r in rows] + [r[1] for r in rows])) if p != s0]
+    cols, pans = [], []
+    for p in o.get('panels', []):
+        col = o['panel_values'][p['key']]
+        cols.append(coqio.lst([coqio.fl(_val(col[i])) for i in kept]))
+        pans.append(coqio.lst([_zf(q[0] - s0, _val(q[1])) for q in p['points']]))
+    inp = '(%d%%nat, %s%%Z, %s, %s, %s, %s, %s)' % (n, coqio.Z(s0), rws, coqio.zlist(cpts), coqio.zlist(spts),
+                                                    coqio.B(c['interp']), coqio.lst(cols))
+    mk = [coqio.zlist([g[0] - s0 for g in o['markers'][nm] if s0 < g[0] < s0 + n - 1]) for nm in ('peaks', 'troughs')]
+    outp = '(%s, (%s, %s), %s)' % (coqio.barr(o['mask_len'], o['mask']), mk[0], mk[1], coqio.lst(pans))
+    return inp, outp
